@@ -15,9 +15,12 @@ TRUSTED = {
           'cargo registry), for every callback — no monotonicity needed — and for n <= 2^63 + 1 (beyond that the crate\'s own `finished + rows.len()` could overflow); U2 restates it. '
           'That the table holds column MINIMA additionally needs total monotonicity, which nobody proves (optimality is bounded-only). '
           'The bounded contract A6.smawk.call_shape still checks the shape on the compiled crate (C03, C06)',
-    'A7': 'A7 LineNumbers (RefCell memo of line numbers): PROVED in unit U23 for a fixed back-pointer table of smawk\'s shape — get terminates, never panics and returns the '
-          'number of back-pointer hops (rewrite R17: RefCell<Vec> verified as a Vec behind &mut self; no two borrows overlap). In U2 the call stays abstract (any usize), because '
-          'the memo is kept across the growing tables smawk passes: that a finished prefix never changes is part of A6 and checked on the real smawk crate by BEC A6.smawk.call_shape',
+    'A7': 'A7 LineNumbers (RefCell memo of line numbers): PROVED in unit U23 (rewrite R17: RefCell<Vec> verified as a Vec behind &mut self; no two borrows overlap): `new` establishes and '
+          'every `get` — on ANY back-pointer table of smawk\'s shape and any i inside it — preserves the table-independent invariant "entry j <= j", under which get terminates and can neither '
+          'index out of bounds nor overflow; and when the memo matches the table, get returns the number of back-pointer hops (the line number) and the memo keeps matching. '
+          'In U2 the call stays abstract (any usize) because the memo sits behind &self: that the safety invariant holds at every call is the induction over the calls made by one cost closure '
+          '(new, then only get, each with a well-shaped table and i inside it — which U24 proves of smawk); it needs nothing about the table\'s history. That the memo MATCHES the growing '
+          'tables (so that the line number picks the right width when several are listed) additionally needs smawk never to change a finished prefix — checked on the real crate by BEC A6.smawk.call_shape',
     'A8': 'A8 (discharged) termination of the loops of display_width and strip_ansi_escape_sequences is now PROVED: Verus forbids the prophetic remaining() in a decreases '
           'clause, so a ghost counter starts at the number of characters and the invariant remaining().len() <= counter shows every iteration consumes at least one; no '
           'exec_allows_no_decreases_clause is left anywhere',
